@@ -305,6 +305,16 @@ def diagnose(F: Facts, v) -> str:
             if want in path and got in path and path.index(got) > path.index(want):
                 return 'F9'
         return 'unexplained'
+    if prop == 'C17' and cl == 'written_before_handlers_finished':
+        bus, ev = key
+        # F21: the same event was accepted twice by this bus and the second (no-op) processing ran, and wrote its
+        # line, inside the first one
+        lst = F.pe.get((bus, ev), ())
+        for p in lst:
+            for q in lst:
+                if p is not q and p[0] < q[0] and (p[1] is None or (q[1] is not None and q[1] < p[1])):
+                    return 'F21'
+        return 'unexplained'
     if prop == 'C16' and cl == 'handler_after_stop':
         bus, ev, hi = key
         a = F.acts.get(v['detail'].get('act'))
